@@ -42,6 +42,9 @@ MIN = {'quick': {'distinct': 250,
                                  ('encoding latin-1', 15),
                                  ('encoding utf-16', 15), ('gzip source', 10),
                                  ('directory source', 5),
+                                 ('options continuous', 3),
+                                 ('options firstid', 3),
+                                 ('options gf-roundtrip', 8),
                                  ('directory of gzip sources', 3)])},
        'thorough': {'distinct': 5000, 'hooks': {'cli.transform': 15000}}}
 
@@ -305,6 +308,8 @@ def run_case(ctx, case):
             run_chain(ctx, case, rng)
         elif kind == 'dir':
             run_dir(ctx, case, rng)
+        elif kind == 'opts':
+            run_opts(ctx, case, rng)
     except Fail as f:
         ctx.fail('C03:' + f.mech, case, f.detail)
         return
@@ -421,6 +426,72 @@ def run_dir(ctx, case, rng):
         ctx.stratum('directory of gzip sources')
 
 
+def run_opts(ctx, case, rng):
+    """Documented reader / writer options given on the command line
+    (key:value parsing included)."""
+    scen = case['scenario']
+    bank = case['bank']
+    sep = case.get('sep', '-')
+    if scen == 'continuous':
+        src = write_src(ctx, 'export', bank, rng, 'utf-8', False, False)
+        dest = ctx.path('.export')
+        rc, err = convert(ctx, src, dest, 'export', 'export',
+                          sopts=('quiet', 'continuous'))
+        if rc != 0:
+            raise Fail('options-exit-status-continuous', common.tail(err, 300))
+        got = codec.export_decode(common.read(dest))
+        if [s['sid'] for s in got] != list(range(1, len(bank) + 1)):
+            raise Fail('option-continuous-ids', 'ids %r'
+                       % ([s['sid'] for s in got],))
+    elif scen == 'firstid':
+        n = case['firstid']
+        src = write_src(ctx, 'brackets', bank, rng, 'utf-8', False, False)
+        dest = ctx.path('.export')
+        rc, err = convert(ctx, src, dest, 'brackets', 'export',
+                          sopts=('quiet', 'brackets_firstid:%d' % n))
+        if rc != 0:
+            raise Fail('options-exit-status-firstid', common.tail(err, 300))
+        got = codec.export_decode(common.read(dest))
+        if [s['sid'] for s in got] != list(range(n, n + len(bank))):
+            raise Fail('option-brackets_firstid-ids', 'first id %d: ids %r'
+                       % (n, [s['sid'] for s in got]))
+    elif scen == 'gf-roundtrip':
+        # export -> brackets with gf [gf_separator] -> export with gf_split:
+        # the edge labels of the constituents travel inside the labels
+        src = write_src(ctx, 'export', bank, rng, 'utf-8', False, False)
+        mid = ctx.path('.brackets')
+        dopts = ['gf'] + (['gf_separator:' + sep] if sep != '-' else [])
+        rc, err = convert(ctx, src, mid, 'export', 'brackets', dopts=dopts)
+        if rc != 0:
+            raise Fail('options-exit-status-gf', common.tail(err, 300))
+        dec = codec.brackets_decode(common.read(mid))
+        for spec, d in zip(bank, dec):
+            want = sorted((n['l'] + (sep + n['e'] if n['e'] != '--' else ''))
+                          for n in gen.walk(spec['root'])
+                          if 'c' in n and n is not spec['root'])
+            have = sorted(n['l'] for n in codec._walk(d['root'])
+                          if 'c' in n and n is not d['root'])
+            if want != have:
+                raise Fail('option-gf-decoration', 'labels %r, expected %r'
+                           % (have[:6], want[:6]))
+        back = ctx.path('.export')
+        sopts = ['quiet', 'gf_split'] + (['gf_separator:' + sep]
+                                         if sep != '-' else [])
+        rc, err = convert(ctx, mid, back, 'brackets', 'export', sopts=sopts)
+        if rc != 0:
+            raise Fail('options-exit-status-gf_split', common.tail(err, 300))
+        got = codec.export_decode(common.read(back))
+        for spec, d in zip(bank, got):
+            want = sorted((n['l'], n['e']) for n in gen.walk(spec['root'])
+                          if 'c' in n and n is not spec['root'])
+            have = sorted((n['l'], n['e']) for n in codec._walk(d['root'])
+                          if 'c' in n and n is not d['root'])
+            if want != have:
+                raise Fail('option-gf-roundtrip', '(label, edge) %r, '
+                           'expected %r' % (have[:6], want[:6]))
+    ctx.stratum('options ' + scen)
+
+
 def draw_pair(rng, sfmt, dfmt):
     cont = 'brackets' in (sfmt, dfmt)
     senc = rng.choice(['utf-8', 'utf-8', 'latin-1', 'utf-16'])
@@ -472,6 +543,8 @@ def shard(ctx):
         case['bank'] = make_bank(rng, cont, 'utf-8',
                                  a in ('export', 'tigerxml'), a == 'export')
         run_case(ctx, case)
+    for i in ctx.indices(ctx.pick(48, 1500)):
+        run_case(ctx, draw_opts(ctx.rng('opts', i)))
     for i in ctx.indices(ctx.pick(24, 400)):
         rng = ctx.rng('dir', i)
         a, b = rng.choice(SRC), rng.choice(DST)
@@ -483,6 +556,23 @@ def shard(ctx):
         case['gz'] = rng.random() < 0.5
         case['bank'] = case['banks'][0]
         run_case(ctx, case)
+
+
+def draw_opts(rng):
+    scen = rng.choice(['continuous', 'firstid', 'gf-roundtrip', 'gf-roundtrip'])
+    pools = gen.Pools(edges=['HD', 'NK', 'SB', 'OA', '--', '--'], lemma=False)
+    k = rng.randint(1, 4)
+    sid = rng.choice([3, 10, 77])
+    bank = []
+    for j in range(k):
+        bank.append(gen.tree(rng, rng.randint(1, 8), pools,
+                             max_arity=rng.choice([2, 3, 4]), p_unary=0.15,
+                             moves=0, sid=sid))
+        sid += rng.choice([1, 2, 5])
+    return {'kind': 'opts', 'scenario': scen, 'bank': bank,
+            'firstid': rng.choice([0, 5, 42, 1000]),
+            'sep': rng.choice(['-', '#', '+']), 'senc': 'utf-8',
+            'denc': 'utf-8', 'seed': rng.randrange(10 ** 6)}
 
 
 def replay(ctx, case):
